@@ -64,7 +64,7 @@ func c17(r *core.Run) {
 	r.Assumptions = []string{T1, T4}
 	r.NotDecided = []string{"'identical contents' beyond same value at write time", "history-level consistency (follows from the per-transition rules given T4)"}
 	r.Rule("C17/R1", "dual index: in every function, a Set (Delete) that reaches FilesByMerkle but not FilesByOwner (or vice versa) is paired on all paths with a Set (Delete) on the other index with identical arguments")
-	r.Rule("C17/R2", "list and record move together: each assignment to UnifiedFile.Proofs of a stored file is followed on all paths by a FileProof Set/Delete and a file save; file removal deletes a FileProof per listed key")
+	r.Rule("C17/R2", "list and record move together: each assignment to UnifiedFile.Proofs of a stored file is followed on all paths by a FileProof Set/Delete and a file save; file removal deletes a FileProof per listed key; conversely a FileProof record is deleted only by a function that also assigns the list or removes the file")
 	r.Rule("C17/R4", "records decoded on transaction/block paths go into a variable local to the invocation (never a captured variable with repeated fields): a reused decode target accumulates the prover lists of earlier files, and saving it stores provers that belong to other files")
 	r.Rule("C17/R3", "uniqueness and bound: appender calls on transaction paths are behind containsProver(...)=false; the append is behind Cmp(len(Proofs) < MaxProofs); FileProof records built for a file take Merkle/Owner/Start from the file")
 	r.Rule("C17/R5", "the two indexes name a file by the same fields: every storage key builder is an injective formatter of its parameters (each parameter once, as it is or hex/decimal formatted), so two files that are distinct in one index never share a slot in the other")
@@ -286,6 +286,39 @@ func c17(r *core.Run) {
 		}
 	}
 	r.Floor("C17/R2", nList, 2, "prover-list assignments")
+	// ... and the converse: a proof record is deleted only together with its entry in the file's list (the function
+	// assigns the list) or together with the file itself (the function deletes the file record)
+	nDel := 0
+	for _, fn := range funcs {
+		if isAccessorFn(p, fn) || p.IsGenerated(fn) {
+			continue
+		}
+		for _, e := range p.Effects(fn) {
+			call, isCall := e.Instr.(ssa.CallInstruction)
+			if !isCall || e.Direct {
+				continue
+			}
+			if cal, _ := directOpCallee(p, call, "Delete", stProof); cal == nil {
+				continue
+			}
+			nDel++
+			goesWith := false
+			allInstrs(fn, func(in ssa.Instruction) {
+				if st, ok := in.(*ssa.Store); ok {
+					if fa, ok := st.Addr.(*ssa.FieldAddr); ok && core.FieldName(fa.X.Type(), fa.Field) == "Proofs" && core.TypeName(fa.X.Type()) == "x/storage/types.UnifiedFile" {
+						goesWith = true
+					}
+				}
+			})
+			for _, e2 := range p.Effects(fn) {
+				if effHas(e2, "Delete", stFiles) {
+					goesWith = true
+				}
+			}
+			r.Check(goesWith, "C17/R2", core.FnName(fn)+":proof-record-deleted-with-its-list-entry", p.InstrPos(call), "the function that deletes a proof record also updates the file's prover list or removes the file", "a proof record is deleted while the files that list it keep the entry: a listed prover without a retrievable proof record, holding one of the file's replication slots")
+		}
+	}
+	r.Floor("C17/R2", nDel, 1, "proof-record delete sites")
 	// appender call sites on tx paths behind contains=false
 	reach, err := p.TxReachable()
 	if err != nil {
